@@ -391,7 +391,13 @@ theorem presVAll_succ (hC : PresVCtx p dyn S T) (ih : PresVAll cx p dyn S T fuel
       · cases h; exact one e hw _ _ (by assumption)
       · exact one e hw _ _ h
     | call f args => exact keepv_call hC ih hK hw h
-    | wideRatio ns ds => simp only [wtR] at hw; cases hw
+    | wideRatio ns ds =>
+      simp only [wtR, Bool.and_eq_true] at hw
+      have hwa : wtRArgs K (ns ++ ds) = true := by rw [wtRArgs_append, hw.1.1.2, hw.1.2]; rfl
+      rw [eval_wideRatio] at h
+      split at h
+      · cases h; exact ih.args cur (ns ++ ds) w [] _ _ K _ hK hwa (by assumption)
+      · exact ih.args cur (ns ++ ds) w [] r w' K _ hK hwa h
     | substring a b c =>
       simp only [wtR, Bool.and_eq_true] at hw
       simp only [eval] at h
